@@ -37,7 +37,8 @@ LEVEL = "exploration"
 RULE = (
     "Hypothesis draws a contractive coupled system (2-4 disciplines, output sizes 1-3, 1-3 design inputs of size 1-2 "
     "some of them read by nobody, rings / several strongly connected components / weakly coupled and self-coupled "
-    "disciplines / acyclic systems, optional tanh terms, optional non-coupling outputs, drawn list order and names), a "
+    "disciplines / acyclic systems, optional tanh terms, optional non-coupling outputs, disciplines producing two couplings, "
+    "drawn list order and names), a "
     "design space holding the design inputs and all the couplings in a drawn order with drawn finite or missing bounds, "
     "an objective (scalar or vector, minimised or maximised) and 0-2 eq/ineq constraints (1-2 outputs of one discipline, "
     "value, positive flag, optional name) among the discipline outputs, two design points, perturbed coupling targets, "
@@ -68,6 +69,9 @@ ASSUMPTIONS = [
     "them): the design-space oracle only constrains the used design inputs and the couplings",
     "a constraint made of several outputs takes them from one discipline (documented requirement)",
     "the order of the components inside one consistency constraint is read from the constraint's output_names",
+    "MDF Jacobians are not evaluated (values still are) in the four classes of the open ledger entries C17-F1..F4 "
+    "(JacobianAssembly raises on requests whose graph traversal prunes a needed discipline); the classes are computed "
+    "from the coupling graph of the payload (mdf_request_classes)",
     "optimisation: SLSQP with exact Jacobians, max_iter 300, x/f tolerances 1e-15, eq/ineq tolerances 1e-8; a run "
     "stopped by max_iter is inconclusive; parallel IDF (n_processes > 1) belongs to C13; BiLevel is out of scope",
 ]
@@ -322,6 +326,8 @@ def _case_pointwise(p, ctx):
     ctx.cls("graph:acyclic" if acyclic else ("graph:single_ring" if info["all_strong"] and info["n_scc_ge2"] == 1 else "graph:mixed"))
     if info["n_self_coupled"]:
         ctx.cls("self_coupled_discipline")
+    if any(len([n for n in outs if n in couplings]) > 1 for outs in model.outputs_of):
+        ctx.cls("discipline_with_two_coupling_outputs")
     if sizes[p["objective"]] > 1:
         ctx.cls("vector_objective")
     if p["maximize"]:
@@ -620,6 +626,6 @@ ORACLES = {"pointwise": case_pointwise, "optimize": case_optimize}
 
 
 def run(ctx):
-    ctx.drive("pointwise", formulation_cases(), case_pointwise, quick=110, thorough=500)
+    ctx.drive("pointwise", formulation_cases(), case_pointwise, quick=100, thorough=500)
     if ctx.tier == "thorough":
-        ctx.drive("optimize", convex_problems(), case_optimize, quick=1, thorough=3)
+        ctx.drive("optimize", convex_problems(), case_optimize, quick=1, thorough=4)
